@@ -16,6 +16,8 @@ pub enum Ev {
     Timer,
     /// batch k becomes available in the node's store (what the mempool's processor does)
     Batch(u8),
+    /// the node's own mempool hands digest k to the proposer (payload of its next proposal)
+    Digest(u8),
 }
 
 fn canon_qc(qc: &QC) -> QC {
@@ -258,6 +260,8 @@ pub struct LocalKey {
     pub parked: BTreeMap<Digest, u64>,
     /// payload batches present in the store
     pub batches: BTreeSet<u8>,
+    /// own-mempool digests handed to the proposer and not yet seen in one of its proposals
+    pub pending_digests: BTreeSet<u8>,
     /// statically unacceptable blocks to which the node nevertheless reacted
     pub odd: BTreeSet<Digest>,
     pub hist: Hist,
